@@ -305,6 +305,17 @@ func (s *State) lockCheck(instr ssa.Instruction, a *Addr) {
 		return
 	}
 	fname := n.Obj().Name() + "." + n.Underlying().(*types.Struct).Field(a.Field).Name()
+	if _, isStore := instr.(*ssa.Store); isStore && s.c.con != nil {
+		for k, so := range s.c.con.StoreOnly {
+			if so.Field != fname {
+				continue
+			}
+			x := s.invCtx()
+			v := x.eval(so.Clause.Expr)
+			s.c.specErrors(x, so.Clause.Where)
+			s.oblige("storeonly:"+fname, instr, k+1, eq(a.Ref, v.S), "this goroutine may write "+fname+" only of "+so.Clause.Src+" (the object whose continuation it owns)", true)
+		}
+	}
 	if s.c.con != nil {
 		for _, o := range s.c.con.Owns {
 			if o == fname {
